@@ -157,6 +157,17 @@ def writeS (p : PF) (s : Spec) (str : Bytes) : Option PF := do
     let p ← PF.pad p 32 diff
     PF.concat p t
 
+/-- `pf_write_S` / `pf_utf8_string_padding`: the bytes kept by the scan, padded to the width in code points -/
+def writeUS (p : PF) (s : Spec) (str : Bytes) : Option PF := do
+  let r ← ustrArg s.prec str
+  let diff := (max s.width r.2) - r.2
+  if s.flags.dash then
+    let p ← PF.concat p r.1
+    PF.pad p 32 diff
+  else
+    let p ← PF.pad p 32 diff
+    PF.concat p r.1
+
 /-! ### floating point: the exact digits, written through the converter's block writers -/
 
 def valueOf (ds : Bytes) : Nat := ds.foldl (fun a b => a * 10 + (b.toNat - 48)) 0
@@ -234,6 +245,7 @@ def convert (p : PF) (s : Spec) (arg : Option Arg) : Option PF := do
       if s.len = .l then do let p ← PF.concat p (wcBytes raw); pure (p, {}, false)
       else do let p ← PF.push p (UInt8.ofNat (raw % 256)); pure (p, {}, false)
     | 's', some (.str str) => do let p ← writeS p s str; pure (p, {}, false)
+    | 'S', some (.gstr str) => do let p ← writeUS p s str; pure (p, {}, false)
     | 'd', some (.int raw) => do let (p, md) ← writeI p s raw; pure (p, md, false)
     | 'i', some (.int raw) => do let (p, md) ← writeI p s raw; pure (p, md, false)
     | 'o', some (.int raw) => do let p ← writeO p s raw; pure (p, {}, false)
@@ -256,6 +268,7 @@ def convert (p : PF) (s : Spec) (arg : Option Arg) : Option PF := do
 def argFits (c : Char) : Arg → Bool
   | .int _ => c = 'c' || c = 'd' || c = 'i' || c = 'o' || c = 'x' || c = 'X' || c = 'u' || c = 'p'
   | .str _ => c = 's'
+  | .gstr _ => c = 'S'
   | .dbl _ => isFloatConv c
 
 /-- `pf_vsnprintf_consuming`: `none` = a write outside the destination, `some none` = bad format/arguments -/
